@@ -67,6 +67,7 @@ class Ctx:
         self.t_first_failure = None
         self.failing_key = None
         self.quiet = False
+        self.collected = {}
 
     # coverage facts
     def count(self, n=1):
@@ -105,6 +106,13 @@ class Ctx:
         """Report a violation: counted and skipped when it matches a known finding, raised
         otherwise."""
         v = Violation(kind, detail, sig)
+        if os.environ.get("HSVERIF_COLLECT"):
+            # diagnosis mode: bucket every violation by signature and keep searching
+            k = json.dumps(v.sig, sort_keys=True)
+            if k not in self.collected:
+                self.collected[k] = str(detail)[:700]
+            self.classify("COLLECTED " + k)
+            return v
         for e in self.known:
             if sig_matches(e.get("signature", {}), v.sig):
                 self.excluded[e["id"]] = self.excluded.get(e["id"], 0) + 1
@@ -113,7 +121,7 @@ class Ctx:
 
     def result(self):
         return {"evaluations": self.evaluations, "keys": sorted(self.keys), "classes": self.classes,
-                "samples": self.samples, "excluded": self.excluded}
+                "samples": self.samples, "excluded": self.excluded, "collected": self.collected}
 
 
 # -------------------------------------------------------------------------------------------
@@ -208,11 +216,12 @@ def worker_main(prop_id, tier, seed, shard, nshards, out_path):
 # -------------------------------------------------------------------------------------------
 # replay
 
-def replay_case(prop_id, case, tier="quick"):
-    """Run one literal case without Hypothesis.  Returns the Violation or None."""
+def replay_case(prop_id, case, tier="quick", exclude=None):
+    """Run one literal case without Hypothesis.  Returns the Violation or None.  `exclude` = known
+    finding entries that stay excluded (used when replaying one known finding among several)."""
     mod = load_prop(prop_id)
     ctx = Ctx(prop_id, tier)
-    ctx.known = []  # a replay reports everything
+    ctx.known = list(exclude or [])  # a plain replay reports everything
     try:
         mod.run_case(case, ctx)
     except Violation as v:
@@ -270,7 +279,9 @@ def orchestrate(prop_id, tier, seed, nshards=None, budget=None):
             continue
         with open(rp) as f:
             body = json.load(f)
-        v = replay_case(prop_id, body["case"], tier)
+        others = [o for o in load_known(prop_id) if o.get("status") == "finding" and o is not e
+                  and o.get("id") != e.get("id")]
+        v = replay_case(prop_id, body["case"], tier, exclude=others)
         if e.get("status") == "finding":
             if v is not None and sig_matches(e.get("signature", {}), v.sig):
                 status_lines.append(f"KNOWN-FINDING: property={prop_id} {e['id']}: {e['what']}")
@@ -334,6 +345,14 @@ def orchestrate(prop_id, tier, seed, nshards=None, budget=None):
             merged["classes"][k] = merged["classes"].get(k, 0) + v
         for k, v in r.get("excluded", {}).items():
             merged["excluded"][k] = merged["excluded"].get(k, 0) + v
+    collected = {}
+    for sh in sorted(results):
+        for k, v in results[sh].get("collected", {}).items():
+            collected.setdefault(k, v)
+    if collected:
+        print(f"[diagnosis mode] {len(collected)} distinct violation signatures:")
+        for k, v in sorted(collected.items()):
+            print("  *", k, "::", v[:500])
     # interleave samples from shards
     for i in range(6):
         for sh in sorted(results):
